@@ -78,6 +78,13 @@ CHECKS = {
         note="Trusted: TLC, mpmath. The symbolic identities are exact; floating-point agreement is sampled. Integer-typed arguments to compiled variants are outside the checked domain (int64 overflow for radii > 2e6 in 3-D was observed, see DESIGN).",
         ref="§3 C12",
     ),
+    "C13": dict(
+        level="model_checking",
+        technique="TLA+ spec Harmonics.tla (mode bookkeeping k<->(l,m), (sin,cos) pairing, first-order curvature coefficients as exact rationals) model-checked by TLC; configurations class x active modes x signs x radius enumerated by TLC and replayed on real droplets; independent quadrature / Legendre-series oracle for the integrals",
+        text="TLC checks Bijection, InverseOnPairs, CountIsSquare, OptimalOnlySquares (k <= 120), TranslationModesFlat, HigherModesPositive, NoZerothMode and enumerates every configuration of <=2 (thorough <=3) active amplitudes among the first 8 (15) with signs for the three perturbed classes and radii 2^-3..2^3 (quick 1161, thorough 85911). For each, the real droplet with amplitudes +-2^-12 must satisfy: spherical_index_lm/k equal the spec's; interface_distance equals the documented series (independent Legendre evaluation, 1e-12); interface_position = centre + distance * direction; interface_curvature = (1/R)(1 + sum a_k h_k Y_k) with the spec's h_k within O(eps^2) at 27 directions (superposition of modes, all radii); volume_approx - exact = O(eps^2); repeated queries neither change the droplet nor the answers; zero amplitudes reduce exactly to the sphere. A shard is checked at finite amplitudes (0.05-0.25): 2-D volume (1e-10) and arclength (1e-4) and 3-D volume (1e-6) against independent quadrature, volume setter, triangulation vertices on the interface (1e-9).",
+        note="Trusted: TLC; numpy/scipy (lpmv, Gauss-Legendre). The equality of volume/surface with integrals and the harmonic values are numeric comparisons, not model checking. Quantities a class does not implement (NotImplementedError) are not judged. Found and repaired F7a/F7b/F16.",
+        ref="§3 C13",
+    ),
     "C14": dict(
         level="model_checking",
         technique="TLA+ spec Tracker.tla (Handle per interrupt for DropletTracker, LengthScaleTracker and the storage; Finalize writes keyed datasets; offline analysis as a function of the storage) model-checked by TLC over histories x settings x sources x methods; spec->code replay through real trackers with the analysis call arguments logged, plus real solver runs",
